@@ -134,7 +134,9 @@ def project(tid, events):
             i = inner.get(e["call"])
             if out and out[-1]["ev"] == "outside":
                 break
-            row = {"ev": "cadd", "n": N(e["name"]), "isdefault": e["name"] == "default", "starting": e["state"] == "starting", "defname": N(e["default_name"]),
+            ts_c = sorted({T(t) for t in (e.get("types") or []) if t != -1 and T(t)}) if e.get("fac") else []
+            ts_i = sorted({T(t) for t in (i.get("types") or []) if t != -1 and T(t)}) if (i and e.get("fac")) else []
+            row = {"ev": "cadd", "ts": ts_c, "ints": ts_i, "n": N(e["name"]), "isdefault": e["name"] == "default", "starting": e["state"] == "starting", "defname": N(e["default_name"]),
                    "desc": D(e["desc"]), "fac": bool(e["fac"]), "r": RESULT.get(e["r"], "other"), "delegated": i is not None, "cb": bool(e.get("cb", False)),
                    "in": {"n": N(i["name"]), "desc": D(i["desc"]), "r": RESULT.get(i["r"], "other"), "fac": i["ev"] == "add_factory", "cb": bool(i.get("cb", False))} if i else
                          {"n": "", "desc": "", "r": "", "fac": False, "cb": False}}
@@ -220,7 +222,7 @@ def project(tid, events):
     return {"id": tid, "events": out}
 
 
-PROPS = ("C01", "C02", "C03", "C04", "C08", "C12", "C13", "C14", "C18")
+PROPS = ("C01", "C02", "C03", "C04", "C06", "C08", "C12", "C13", "C14", "C18")
 
 
 def verdicts():
